@@ -205,8 +205,18 @@ func runManifestItems(c *Ctx) {
 			ast.Inspect(cl, func(n ast.Node) bool {
 				if id, ok := n.(*ast.Ident); ok {
 					if o := info.Uses[id]; o != nil {
-						if named, ok := o.Type().(*types.Named); ok && named.Obj().Name() == "DirEntry" {
+						if named, ok := types.Unalias(o.Type()).(*types.Named); ok && named.Obj().Name() == "DirEntry" {
 							fromLstat = true
+						}
+						// a FileInfo: lstat information if any of its definitions is os.Lstat(...) or DirEntry.Info()
+						if named, ok := types.Unalias(o.Type()).(*types.Named); ok && named.Obj().Name() == "FileInfo" {
+							if own := owningFunc(f, o); own != nil {
+								for _, d := range allDefs(own, o) {
+									if dc, ok := ast.Unparen(d).(*ast.CallExpr); ok && (calleeIs(own.Info(), dc, "os", "Lstat") || calleeIs(own.Info(), dc, "io/fs", "DirEntry.Info")) {
+										fromLstat = true
+									}
+								}
+							}
 						}
 					}
 				}
@@ -215,7 +225,7 @@ func runManifestItems(c *Ctx) {
 			isDirConst := types.ExprString(isDirE)
 			if fromLstat {
 				c.Check(kindSpec.Passed(f, r, "kind-ok"), "kind/"+base, call.Pos(), "walk entry appended only after a directory-or-regular-file test",
-					"an entry described by WalkDir's lstat information is appended without a regular-file/directory test: a symlink or device appears with a size that is not its readable content")
+					"an entry described by lstat information (WalkDir entry, DirEntry.Info or os.Lstat) is appended without a regular-file/directory test: a symlink or device appears with a size that is not its readable content")
 			} else {
 				c.OKTrivial("kind/"+base, call.Pos(), "item built from os.Stat information (follows links): size equals readable content")
 			}
